@@ -19,7 +19,7 @@ type sctx struct {
 	propertyList []S16
 	hasList      bool
 	replacer     Value // callable or Undefined
-	liveKeys     bool  // alternative model only, see StringifyLiveKeys
+	liveKeys     bool  // alternative model only, see StringifySkipDeleted
 }
 
 // Stringify is JSON.stringify(value, replacer, space) (15.12.3). Absent
@@ -28,12 +28,12 @@ func Stringify(value, replacer, space Value) (res StringifyResult) {
 	return stringify(value, replacer, space, false)
 }
 
-// StringifyLiveKeys is NOT the specification algorithm: JO ranges over the live
-// key slice of the object (AliasDelete objects shift it in place) instead of the
-// list K taken in JO step 5/6, skipping names that are no longer own enumerable
-// properties — the alternative model of an implementation that enumerates its
-// property-order slice while callbacks delete from it.
-func StringifyLiveKeys(value, replacer, space Value) StringifyResult {
+// StringifySkipDeleted is NOT the specification algorithm: JO takes the list K
+// beforehand but skips a name that is no longer an own enumerable property when
+// its turn comes (for-in semantics) instead of calling Str(P, value) for every P
+// of K — the alternative model of an implementation that reuses its for-in
+// enumeration for JSON.stringify.
+func StringifySkipDeleted(value, replacer, space Value) StringifyResult {
 	return stringify(value, replacer, space, true)
 }
 
@@ -222,8 +222,6 @@ func (c *sctx) jo(o *Obj) []uint16 {
 	var keys []S16
 	if c.hasList {
 		keys = c.propertyList
-	} else if c.liveKeys {
-		keys = o.Keys
 	} else {
 		keys = o.OwnEnumKeys()
 	}
